@@ -156,6 +156,9 @@ class HistoryGen(object):
         elif vnum(v) < 14 and self.bad(0.05):
             body['parent_provider_uuid'] = None
             mode = 'parent-key-old-version'
+        elif vnum(v) >= 14 and r.random() < 0.25:
+            body['parent_provider_uuid'] = None    # explicit "no parent"
+            mode = 'root-explicit-null'
         return Req('POST', '/resource_providers', v, body,
                    tag={'mode': mode, 'rp': u})
 
